@@ -433,6 +433,7 @@ def run_history(plan, ref_results, pre_bytes, stats):
     cfg = plan['cfg']
     world = new_world(cfg, pre_bytes)
     world._pre_bytes = pre_bytes
+    world.fs.record = False  # the op log (with all bytes written) is only needed for the sweep of reference runs
     out_p, bak_p = paths_for(cfg)
     ev = StateEvaluator(world, out_p, bak_p)
     start = ('fresh', W.build_params(cfg))
